@@ -87,6 +87,19 @@ CLAIMED = {
              "db.dump correspondence on targeted corruptions of every link / count / size field, pairs, truncations and bit flips, each parsed "
              "in a worker under a time limit (max(10 s, 200 x clean parse)) and an address-space limit.",
         design="§9 C18", note=NOTE + "partial: seconds and RSS are measured, not proved; cost of recursion-limit-bounded walks (cyclic freelist trunks / child pointers) is large but finite; WAL / signature / carving stages are not yet in the damaged-input pipeline.", technique=T + "; targeted byte-level corruption with resource-limited workers"),
+    "C08": dict(
+        text="Theorems over the model of SignatureCarver / CarvedRecord / the iterator's carving fold: offset arithmetic and backing of every "
+             "carved cell by the region's bytes, pairwise distinct digests over a history; 'always completes', 'freeblock offset' and 'digest "
+             "identifies the record' are refuted by Lean witnesses replayed on the code, 'completes' holds under named hypotheses. Tied by "
+             "carve.record / region / table / iter / journal correspondence against the real carver on generated regions and SQLite-written "
+             "databases, WALs and journals.",
+        design="§9 C08", note=NOTE + "partial: 'inside free space of a page of that table' by oracle (independent page reader) only; sizes < 2^53; Python re validated, not verified; open findings C08-xx.", technique=T),
+    "C09": dict(
+        text="Theorems: recall of an intact record at record and region level, first-match scan lemma, a generated pattern's match is exactly the "
+             "serial-type header (self-delimiting varints), first column recovered from the freeblock size or a single possible type; recall "
+             "through the iterator refuted (digest collision) by a Lean witness. Tied by carving correspondence; deletion grid over page size x "
+             "column shape x position x residue location with an independent before/after byte reader.",
+        design="§9 C09", note=NOTE + "partial: recall through the freeblock/partial pattern at region level is decided by the grid, not by a theorem; open findings C09-xx.", technique=T),
     "C06": dict(
         text="Theorems on the page-layout check: stable sort, telescoping identity, every SQLite-well-formed layout is accepted with "
              "fragment total = header count, accepted layouts tile [content offset, page end) without overlap or gap, strict checking "
